@@ -281,6 +281,15 @@ def check_transition(kind, attr, std, alias, state, op, bare=False):
             fail("serialization does not show exactly the mapping's content", want_params, tok)
     elif kind == "SSCChart" and M.ssc_notes_key(list(new_state)) is not None:
         fail("serializing a chart that has note data raised", "text", s1)
+    # serializing is a read: the mapping (content and order) is as before, and the object still equals an
+    # unserialized twin
+    items2 = list(obj.items())
+    if items2 != items:
+        fail("serializing changed the mapping's content or order", items, items2)
+    else:
+        eq2 = outcome_eq(obj, build(kind, new_state))
+        if eq2 != ("ok", True, False):
+            fail("after being serialized the object no longer equals an unserialized twin", ("ok", True, False), eq2)
     # a different content must not compare equal
     if new_state != state:
         old = build(kind, state)
